@@ -11,26 +11,23 @@
    universally quantified like the shares.  The rounds are the 64-bit ASCON rounds (layout KL64) on the joined value:
    the statement is literally the one of the 64-bit kernels in Properties_C10.v. *)
 From Coq Require Import List Arith Bool NArith Lia. Import ListNotations.
-From AsconV Require Import Sym.Wexpr Sym.Pipe Sym.Kernel Sym.KernelP Sym.VKernel Obl.KernMaskedDefs Obl.KernMaskedParts
+From AsconV Require Import Sym.Wexpr Sym.Pipe Sym.Kernel Sym.KernelP Sym.VKernel Obl.MWordSpec Obl.KernMaskedDefs Obl.KernMaskedParts
   Gen.Masked_mx2_c32 Gen.Masked_mx3_c32 Gen.Masked_mx4_c32 Gen.MaskedObl_mx2_c32 Gen.MaskedObl_mx3_c32 Gen.MaskedObl_mx4_c32.
 
-(* For every first_round k <= 12: whatever the share halves (including the surplus shares of the 4-share
-   container) and the preserved random words are, the unmasked value of the state after the translated
-   ascon_xN_permute is rounds k..11 of the unmasked value before. *)
-Definition masked_perm_correct (ifs : list viface) (ein eout : nat) (segs : list vseg) (chains : list (nat * list nat)) : Prop :=
-  forall k, k <= 12 -> exists idx, In (k, idx) chains /\
-  forall v, widths_of v = vi_w (vif ifs ein) ->
-  run BoolAlg (vrun_chain (vchain_of segs idx) v) (vi_val (vif ifs eout)) =
-  pexec BoolAlg (rounds_pipe KL64 (seq k (12 - k))) (run BoolAlg v (vi_val (vif ifs ein))).
-
-Theorem C10_perm_x2_c32 : masked_perm_correct mx2_c32_ifaces mx2_c32_entry mx2_c32_exit mx2_c32_segs mx2_c32_chains.
-Proof. exact (vbackend_sound _ _ _ _ _ mx2_c32_ok). Qed.
+(* Obl/KernMaskedDefs.masked_perm_std B32 n 4 (see Properties_C10.v): entry / exit interface = the 5 x 32 state bytes and
+   the 8 (n-1) preserved bytes; for every first_round k <= 12, whatever the share halves (including the surplus shares of the
+   4-share container) and the preserved random words are, state_val B32 n 4 of the memory after the translated
+   ascon_xN_permute is rounds k..11 of state_val B32 n 4 of the memory before.  Obl/MWordSpec.state_val B32 is hand-written:
+   per state word, WInterleave (XOR_j rotl_{5j} W[2j]) (XOR_j rotl_{5j} W[2j+1]); MWordSpec.kval32_is_mval32 proves it equal
+   to the XOR of the logical shares (mval32) for all bytes. *)
+Theorem C10_perm_x2_c32 : masked_perm_std B32 2 4 mx2_c32_ifaces mx2_c32_entry mx2_c32_exit mx2_c32_segs mx2_c32_chains.
+Proof. exact (vbackend_sound_std _ _ _ _ _ _ _ _ mx2_c32_ok mx2_c32_std_ok). Qed.
 Print Assumptions C10_perm_x2_c32.
-Theorem C10_perm_x3_c32 : masked_perm_correct mx3_c32_ifaces mx3_c32_entry mx3_c32_exit mx3_c32_segs mx3_c32_chains.
-Proof. exact (vbackend_sound _ _ _ _ _ mx3_c32_ok). Qed.
+Theorem C10_perm_x3_c32 : masked_perm_std B32 3 4 mx3_c32_ifaces mx3_c32_entry mx3_c32_exit mx3_c32_segs mx3_c32_chains.
+Proof. exact (vbackend_sound_std _ _ _ _ _ _ _ _ mx3_c32_ok mx3_c32_std_ok). Qed.
 Print Assumptions C10_perm_x3_c32.
-Theorem C10_perm_x4_c32 : masked_perm_correct mx4_c32_ifaces mx4_c32_entry mx4_c32_exit mx4_c32_segs mx4_c32_chains.
-Proof. exact (vbackend_sound _ _ _ _ _ mx4_c32_ok). Qed.
+Theorem C10_perm_x4_c32 : masked_perm_std B32 4 4 mx4_c32_ifaces mx4_c32_entry mx4_c32_exit mx4_c32_segs mx4_c32_chains.
+Proof. exact (vbackend_sound_std _ _ _ _ _ _ _ _ mx4_c32_ok mx4_c32_std_ok). Qed.
 Print Assumptions C10_perm_x4_c32.
 
 (* non-vacuity: the interfaces are the 5 x 32 state bytes plus the 8 (n-1) preserved bytes, every first_round has a
